@@ -5,7 +5,7 @@
    Session.streams, and the threads that touch them, one shared access per step:
 
      event loop   per inbound event (session.go getStream + handleStreamMessage; protocol_manager.go):
-                    EIdle  dequeue, table lookup (not found: dropped); data: pendingData.add -> EChk
+                    EIdle  dequeue, table lookup (not found: dropped); data: EAdd = pendingData.add -> EChk
                                                                         close notification:    -> EHalf
                     EHalf  halfClose(): CAS state opened->halfClosed; won: EHalfN = safeCloseNotify + OnRemoteClose
                     EChk   load state; closed: EClrP pendingData.clear, then — only without callbacks — EClrR recvBuf.recycle
@@ -57,15 +57,16 @@ Inductive gpc :=
 | GMove | GChk | GCb | GCbBody (k : nat) (cl : nat) | GCbClose (c : cpc) (more : nat) | GCbEnd | GClr | GLdCs | GLen
 | GCas | GWgDone | GWgDoneClose | GClose (c : cpc) | GExit.
 
-Inductive epcT := EIdle | EHalf | EHalfN | EChk | EClrP | EClrR | EGetCb | ECas | EWgAdd | ESpawn.
+Inductive epcT := EIdle | EAdd (m : list Z) | EHalf | EHalfN | EChk | EClrP | EClrR | EGetCb | ECas | EWgAdd | ESpawn.
 Inductive spcT := SIdle | SCas | SWgAdd | SSpawn | SDone.
 (* the user reading synchronously BEFORE it installs callbacks: readMore's pendingData.moveTo(recvBuf), then the
    Peek (k = 0) / ReadBytes (k > 0) itself *)
 Inductive sypcT := SyIdle | SyCons (k : nat).
-(* a user Flush: UIdle the call begins (WriteBytes into sendBuf; sendBuf.Len() > 0) ; ULd load state — not opened:
+(* a user write: UIdle the call begins ; UWr WriteBytes: sendBuf.alloc loads the state (closed: heap memory instead of
+   share memory — no other effect) ; then Flush (sendBuf.Len() > 0): ULd load state — not opened:
    recycle sendBuf, ErrStreamClosed ; UPut queue element to the peer.  `aft` (ghost): some Close() had already
    returned when the state was loaded *)
-Inductive upcT := UIdle | ULd (m : list Z) | UPut (m : list Z) (aft : bool).
+Inductive upcT := UIdle | UWr (m : list Z) | ULd (m : list Z) | UPut (m : list Z) (aft : bool).
 Record ulocal := { upc : upcT; utodo : list (list Z); ures : list (bool * bool) (* (nil?, aft) *) }.
 
 Inductive who := WEv | WGor (i : nat) | WClo (i : nat) | WSet | WUser (i : nat) | WSync.
@@ -210,11 +211,12 @@ Definition estep (s : est) : est :=
       let s1 := set_processed (processed s ++ [e]) (set_inbox r s) in
       if intable s then
         match e with
-        | EData m => set_epc EChk (set_arrived (arrived s ++ m) (set_pending (pending s ++ [m]) s1))
+        | EData m => set_epc (EAdd m) s1   (* the stream was found in the table; pendingData.add comes next *)
         | EClose => set_epc EHalf s1
         end
       else s1
     end
+  | EAdd m => set_epc EChk (set_arrived (arrived s ++ m) (set_pending (pending s ++ [m]) s))
   | EHalf => if st s =? c_streamOpened then set_epc EHalfN (set_st c_streamHalfClosed s) else set_epc EIdle s
   | EHalfN => set_epc EIdle (set_nremote (nremote s + 1) (set_cnotify true s))
   | EChk => if st s =? c_streamClosed then set_epc EClrP s else set_epc EGetCb s
@@ -293,8 +295,9 @@ Definition ustep (i : nat) (s : est) : est :=
     match upc u with
     | UIdle => match utodo u with
                | [] => s
-               | m :: r => setu {| upc := ULd m; utodo := r; ures := ures u |} s
+               | m :: r => setu {| upc := UWr m; utodo := r; ures := ures u |} s
                end
+    | UWr m => setu {| upc := ULd m; utodo := utodo u; ures := ures u |} s
     | ULd m => if st s =? c_streamOpened       (* stream.go Flush: `if state != uint32(streamOpened)` *)
                then setu {| upc := UPut m (0 <? nret s); utodo := utodo u; ures := ures u |} s
                else setu {| upc := UIdle; utodo := utodo u; ures := ures u ++ [(false, 0 <? nret s)] |} s
@@ -303,13 +306,19 @@ Definition ustep (i : nat) (s : est) : est :=
   end.
 
 (* ---------- synchronous reads before SetCallbacks ---------- *)
+(* Peek(size) / ReadBytes(size) call readMore (hence pendingData.moveTo) only if recvBuf holds less than size bytes;
+   size = what the user asks for, at least 1, at most what has arrived *)
+Definition sy_moves (s : est) (k : nat) : bool :=
+  Nat.ltb (length (recv s)) (Nat.max 1 (Nat.min k (length (recv s) + length (concat (pending s))))).
 Definition systep (s : est) : est :=
   match sypc s with
   | SyIdle => if cbset s then s else
               match spc s with
               | SIdle => match sytodo s with
                          | [] => s
-                         | k :: r => set_sypc (SyCons k) (set_sytodo r (move_pending s))
+                         | k :: r => if sy_moves s k
+                                     then set_sypc (SyCons k) (set_sytodo r (move_pending s))
+                                     else set_sypc (SyCons k) (set_sytodo r s)   (* enough in recvBuf: no readMore *)
                          end
               | _ => s
               end
@@ -370,3 +379,98 @@ Definition wstep (w : world) (x : side * who) : world :=
 Definition wrun (sched : list (side * who)) (w : world) : world := fold_left wstep sched w.
 Definition winit (cba cbb : bool) (ncla nclb : nat) (scra scrb : list (nat * nat)) (upa upb : list (list (list Z))) : world :=
   {| wa := init cba [] ncla scra upa; wb := init cbb [] nclb scrb upb |}.
+
+(* ====================================================================================================
+   The pendingData mutex.  Every method of pendingData (add, moveTo, clear) runs inside r.Lock() … r.Unlock();
+   moveTo and clear walk the elements of r.unread under the lock.  The fine-grained machine below adds exactly
+   that to the machine above: a thread whose next step is a pendingData operation must first take the mutex
+   (or find it busy), then walks the n = len(unread) elements one step each, then performs the operation (the
+   step of the machine above: the commit), then unlocks.  Everything else steps as before.  Its schedules are
+   those of the instrumented build with the mutex and the element accesses as scheduling points.
+   ==================================================================================================== *)
+Definition who_eqb (a b : who) : bool :=
+  match a, b with
+  | WEv, WEv | WSet, WSet | WSync, WSync => true
+  | WGor i, WGor j | WClo i, WClo j | WUser i, WUser j => Nat.eqb i j
+  | _, _ => false
+  end.
+
+(* Some n: the next step of thread w is a pendingData operation that walks n elements of r.unread *)
+Definition pend_op (s : est) (w : who) : option nat :=
+  match w with
+  | WEv => match epc s with
+           | EAdd _ => Some O
+           | EClrP => Some (length (pending s))
+           | _ => None
+           end
+  | WGor i => match nth_error (gors s) i with
+              | Some GMove => Some (length (pending s))
+              | Some (GCbClose (CPend _) _) | Some (GClose (CPend _)) => Some (length (pending s))
+              | _ => None
+              end
+  | WClo i => match nth_error (clos s) i with Some (CPend _) => Some (length (pending s)) | _ => None end
+  | WSync => match sypc s with
+             | SyIdle => if cbset s then None else
+                         match spc s, sytodo s with
+                         | SIdle, k :: _ => if sy_moves s k then Some (length (pending s)) else None
+                         | _, _ => None
+                         end
+             | _ => None
+             end
+  | _ => None
+  end.
+
+(* holder of the mutex: (thread, elements walked, elements to walk, operation done) *)
+Record fst_ := { base : est; plk : option (who * nat * nat * bool) }.
+Inductive fact := FPlain | FLock | FBusy | FWalk (i : nat) | FCommit | FUnlock.
+
+Definition faction (f : fst_) (w : who) : fact :=
+  match plk f with
+  | Some (h, i, n, c) =>
+      if who_eqb h w then (if c then FUnlock else if Nat.ltb i n then FWalk i else FCommit)
+      else match pend_op (base f) w with Some _ => FBusy | None => FPlain end
+  | None => match pend_op (base f) w with Some _ => FLock | None => FPlain end
+  end.
+
+Definition fstep (f : fst_) (w : who) : fst_ :=
+  match faction f w with
+  | FPlain => {| base := step (base f) w; plk := plk f |}
+  | FLock => {| base := base f; plk := Some (w, O, match pend_op (base f) w with Some n => n | None => O end, false) |}
+  | FBusy => f
+  | FWalk i => match plk f with Some (h, _, n, c) => {| base := base f; plk := Some (h, S i, n, c) |} | None => f end
+  | FCommit => match plk f with Some (h, i, n, _) => {| base := step (base f) w; plk := Some (h, i, n, true) |} | None => f end
+  | FUnlock => {| base := base f; plk := None |}
+  end.
+Definition frun (sched : list who) (f : fst_) : fst_ := fold_left fstep sched f.
+Definition finit (s : est) : fst_ := {| base := s; plk := None |}.
+
+(* the steps of the atomic machine a fine schedule performs *)
+Fixpoint fproj (sched : list who) (f : fst_) : list who :=
+  match sched with
+  | [] => []
+  | w :: r => match faction f w with
+              | FPlain | FCommit => w :: fproj r (fstep f w)
+              | _ => fproj r (fstep f w)
+              end
+  end.
+
+(* ---------- what goes wrong without the lock around the walk (the variant the harness guards against):
+   moveTo copies the slice header of r.unread and resets r.unread = r.unread[:0] under the lock, then walks the copy
+   AFTER unlocking.  Copy and r.unread share one backing array: an add() during the walk overwrites a slot the
+   walker has not read yet.  `arr` is the backing array, `len` the current length of r.unread. ---------- *)
+Fixpoint set_at {A} (n : nat) (x : A) (l : list A) : list A :=
+  match l, n with
+  | [], _ => [x]
+  | _ :: t, O => x :: t
+  | h :: t, S n => h :: set_at n x t
+  end.
+(* the walker reads slot i of its copy (length n) after the adds that happened before that read *)
+Fixpoint racy_walk {A} (d : A) (arr : list A) (len : nat) (i n : nat) (adds : list (list A)) : list A * list A * nat :=
+  match adds, Nat.ltb i n with
+  | a :: rest, true =>
+      (* the event loop appends the messages a, then the walker reads slot i *)
+      let '(arr', len') := fold_left (fun p m => (set_at (snd p) m (fst p), S (snd p))) a (arr, len) in
+      let '(got, arrf, lenf) := racy_walk d arr' len' (S i) n rest in
+      (nth i arr' d :: got, arrf, lenf)
+  | _, _ => ([], arr, len)
+  end.
